@@ -6,6 +6,7 @@ import pickle
 import tempfile
 import subprocess
 from hypothesis import strategies as st
+from ..strat import ints
 from .. import specs, build, proc
 from ..core import Result, viol, exc_sig, VERIF
 from ..observe import dv_meta, all_vectors, lcg_vectors
@@ -26,10 +27,10 @@ CHILD_EVERY = {'quick': 8, 'thorough': 4}
 @st.composite
 def _case(draw, tier):
     spec = draw(specs.full_spec(max_nodes=8, p_conn=0.25, p_dv=0.4, p_con=0.2, small_conn=True))
-    if draw(st.integers(0, 3)) == 0:
+    if draw(ints(0, 3)) == 0:
         spec = draw(specs.add_metrics(spec, max_met=2))
-    return {'spec': spec, 'pick': draw(st.integers(0, 10**6)),
-            'transport': draw(st.integers(0, CHILD_EVERY[tier]-1)) == 0,
+    return {'spec': spec, 'pick': draw(ints(0, 10**6)),
+            'transport': draw(ints(0, CHILD_EVERY[tier]-1)) == 0,
             'hashseed': draw(st.sampled_from([1, 2, 12345])), 'salt': draw(st.sampled_from([0, 3, 5]))}
 
 
